@@ -236,6 +236,25 @@ def run(chk):
             ndis += 1
             chk.tie_break('correspondence:classmap', 'Silf::readClassMap and Model/ClassMapModel.v disagree: impl %s model %s' % (i[:200], m[:200]), c[:400])
     dist.update({'classmap ' + k: v for k, v in cstats.items()})
+    # --- cmap subtables whose length is odd and which end with the table (the family of C13): the last glyphIdArray entry starts at the
+    # subtable's last byte; both lookup paths must refuse it rather than read past the table (tie to Model/CmapModel.v, whose lookups
+    # C01_cmap*_safe are about)
+    from props import c13 as _c13
+    try:
+        m13, w13 = _c13.build(chk)
+        ocases = ['o%d tbl %s %s' % (k, _c13.hexs(tbl), ' '.join('%x' % p_ for p_ in pts)) for k, (tbl, pts) in enumerate(_c13.gen_oddlen(rng, 120 if thorough else 25))]
+        oml, oil, _ = vlib.run_pair(m13, w13, ocases, timeout=1200)
+        for c, m, i in zip(ocases, oml, oil):
+            if i is None or m is None:
+                chk.tie_break('harness', 'no result line', c[:200]); continue
+            if ' ABORT ' in i:
+                chk.violation('c01:cmap-oddlen:%s' % c.split()[2][:80], 'a cmap lookup read outside the table on a format 4 subtable of odd length ending with the table: %s' % i[:300], dict(case=c, got=i[:600])); continue
+            classes.add(('cmap-oddlen', i.split()[2] if len(i.split()) > 2 else ''))
+            if m.split()[1:] != i.split()[1:]:
+                ndis += 1; chk.tie_break('correspondence:cmap', 'model %r vs implementation %r' % (m[:200], i[:200]), c[:300])
+        dist['cmap odd-length subtables'] = len(ocases)
+    except vlib.BuildError as e:
+        chk.tie_break('build', 'cmap harness: %s' % str(e)[:300])
     # --- the Silf directory and subtable headers (Face::readGraphite / Silf::readGraphite) against Model/SilfModel.v: compiled GDL-lite
     # Silf tables laid out again under every table version with justification levels, critical features, script tags, pseudo glyphs and
     # several subtables, valid and damaged field by field.  Verdict, error code and every header field must agree; where the loader fails
